@@ -1191,6 +1191,7 @@ fn run_mode(args: &Args, mode: Mode, name: &str, property: &str, depth: (usize, 
     explore(mode, name, property, d, args.thorough(), &mut part);
     if mode == Mode::Violations {
         huge_sizes(&mut part);
+        huge_frames(&mut part);
         nested_tables(&mut part);
     }
     if mode == Mode::Content || mode == Mode::Listeners {
@@ -1301,6 +1302,75 @@ fn huge_sizes(part: &mut Part) {
         }
     }
     part.extra.insert("huge_body_sizes".into(), json!(sizes.iter().map(|s| s.to_string()).collect::<Vec<_>>()));
+}
+
+/// Seven bytes of frame header announcing a payload of 1.25 GiB (what a peer's own protocol
+/// header "AMQP\0\0\9\1", sent on a version mismatch, reads as), 2 GiB and 4 GiB - 1, followed by
+/// 64 bytes and then nothing - through the real frame buffer in a child process whose address
+/// space is limited to 1 GiB (`ulimit -v`; a container, a 32-bit target): the announced size is
+/// the peer's say-so, the process must survive it.
+fn huge_frames(part: &mut Part) {
+    let exe = std::env::current_exe().unwrap();
+    let sizes: Vec<u64> = vec![0x5000_0009, 1 << 31, 0xFFFF_FFFF];
+    let results = vh::par::par_map(sizes.len(), |i| {
+        let out = std::process::Command::new("sh")
+            .arg("-c")
+            .arg("ulimit -v 1048576 && exec \"$0\" dispatch-hugeframe-child \"$1\"")
+            .arg(&exe)
+            .arg(sizes[i].to_string())
+            .output();
+        match out {
+            Ok(o) => (o.status.code(), String::from_utf8_lossy(&o.stdout).to_string(), format!("{:?} {}", o.status, String::from_utf8_lossy(&o.stderr).lines().next().unwrap_or("").chars().take(120).collect::<String>())),
+            Err(e) => (None, e.to_string(), String::new()),
+        }
+    });
+    for (i, (code, text, status)) in results.into_iter().enumerate() {
+        part.evaluations += 1;
+        part.distinct_nontrivial += 1;
+        part.transitions += 1;
+        if code != Some(0) || !text.contains("OK") {
+            part.violation(
+                "violations:huge-frame-size",
+                format!("a frame header announcing {} payload bytes, 64 bytes behind it, in a process limited to 1 GiB of address space: {} {}", sizes[i], status, text.lines().last().unwrap_or("")),
+                json!({"engine":"seqx","check":"dispatch","mode":"hugeframe","size":sizes[i].to_string()}),
+            );
+        }
+    }
+    part.extra.insert("huge_frame_sizes".into(), json!(sizes.iter().map(|s| s.to_string()).collect::<Vec<_>>()));
+}
+
+pub fn hugeframe_child(size: &str) {
+    struct S {
+        data: Vec<u8>,
+        pos: usize,
+    }
+    impl std::io::Read for S {
+        fn read(&mut self, buf: &mut [u8]) -> std::io::Result<usize> {
+            if self.pos >= self.data.len() {
+                return Err(std::io::ErrorKind::WouldBlock.into());
+            }
+            let n = (self.data.len() - self.pos).min(buf.len());
+            buf[..n].copy_from_slice(&self.data[self.pos..self.pos + n]);
+            self.pos += n;
+            Ok(n)
+        }
+    }
+    let size: u32 = size.parse::<u64>().unwrap() as u32;
+    let mut data = vec![1u8, 0, 1];
+    data.extend_from_slice(&size.to_be_bytes());
+    data.extend_from_slice(&[0u8; 64]);
+    let mut s = S { data, pos: 0 };
+    let mut fb = amiquip::verif::probe::FrameBuffer::new();
+    let r = catch_unwind(AssertUnwindSafe(|| fb.read_from(&mut s, |_f| Ok(()))));
+    match r {
+        Err(e) => {
+            println!("PANIC: {}", crate::slots::panic_msg(&e));
+            std::process::exit(3);
+        }
+        // (waiting for the rest, or refusing the frame: both are containment)
+        Ok(r) => println!("read_from -> {:?}", r.map_err(|e| format!("{:?}", e))),
+    }
+    println!("OK");
 }
 
 /// A content header whose `headers` table is nested `depth` levels deep - a syntactically valid
